@@ -168,6 +168,8 @@ def run_driver(lines: list[str], timeout=1200) -> list[str] | None:
     may just have been replaced by a concurrent build), then raised (exit 2)."""
     if not DRIVER.exists():
         return None
+    if not lines:
+        return []          # an empty batch (a check that stopped early after enough violations leaves some)
     why = ""
     for attempt in range(2):
         try:
